@@ -709,7 +709,7 @@ fn apply_doc(doc: &Doc, dev: &Dev, v: (u8, u8)) -> Option<Doc> {
 
 pub fn run() {
 	let cx = ctx();
-	cx.note("rule", json!("structure-aware and byte-level deviations of well-formed replays of every framing regime, every single deviation and (thorough) every pair of event-level/header deviations: event delete/duplicate/swap/move/insert (each of the 10 known kinds at every boundary, declared in the table when the version lacks it), frame id / port / follower edits, payload-table edits (sizes, removal, duplication, every value of the length byte, wrong code), every declared raw length 0..actual+8 and 2^31, 2^32-1, splitter fields, metadata markers, every byte offset x {0,0xFF,b^1,b^0x80,b+1} and all 256 values in header/table/first 7 bytes of each event, every truncation, all byte strings of length <=1 (and <=2 with a known first byte; thorough: all) appended after every valid parser state; x {skip_frames} x {compute_hash}; the same inputs through the incremental API driven as in the README; (thorough also: pairs structural x table/splitter edits, pairs of byte edits in header+table, all 3-byte suffixes with a known first byte); read errors of 5 kinds injected at every read call; metadata nested 1..10^6 deep (subprocess). Oracle: returns Ok or Err - no panic, no abort, no read loop without progress, injected non-Interrupted errors surface as Err. Every case is non-trivial (a deviation from a well-formed replay); distinct = distinct mutated input x options"));
+	cx.note("rule", json!("structure-aware and byte-level deviations of well-formed replays of every framing regime, every single deviation and (thorough) every pair of event-level/header deviations: event delete/duplicate/swap/move/insert (each of the 10 known kinds at every boundary, declared in the table when the version lacks it), frame id / port / follower edits, payload-table edits (sizes, removal, duplication, every value of the length byte, wrong code), every declared raw length 0..actual+8 and 2^31, 2^32-1, splitter fields, metadata markers, table-declared unknown events (6 kinds up to 65,535 bytes) at every boundary including after Game End, every byte offset x {0,0xFF,b^1,b^0x80,b+1} and all 256 values in header/table/first 7 bytes of each event, every truncation, all byte strings of length <=1 (and <=2 with a known first byte; thorough: all) appended after every valid parser state; x {skip_frames} x {compute_hash}; the same inputs through the incremental API driven as in the README; (thorough also: pairs structural x table/splitter edits, pairs of byte edits in header+table, all 3-byte suffixes with a known first byte); read errors of 5 kinds injected at every read call; metadata nested 1..10^6 deep (subprocess). Oracle: returns Ok or Err - no panic, no abort, no read loop without progress, injected non-Interrupted errors surface as Err. Every case is non-trivial (a deviation from a well-formed replay); distinct = distinct mutated input x options"));
 	cx.note("exhaustive", json!(true));
 	cx.note("assumptions", json!(["'all byte strings' is not enumerable: decided is the <=1 (thorough: <=2) deviation neighbourhood of well-formed replays plus all short suffixes after every parser state", "a hang is a case without result after 60 s; a read loop without progress is detected by the environment reader's call bound (8*len+64 calls)"]));
 	let all_opts = [(false, false), (true, false), (false, true), (true, true)];
@@ -732,6 +732,35 @@ pub fn run() {
 		let opts: &[(bool, bool)] = if matches!(devs[0], Dev::Append(..)) { &all_opts[..2] } else { &all_opts[..] };
 		run_dev(&doc, v, &devs, name, local, opts, inc);
 	});
+	{
+		// well-formed replays with events of codes the library does not know (declared in the table), at every
+		// boundary - also after Game End, where the reader classifies what is left of the raw element
+		let mut ujobs = vec![];
+		for a in crate::checks::c08::bases(true) {
+			let doc = Arc::new(record(&a).doc);
+			for at in 1..=doc.events.len() {
+				for k in 0..crate::checks::c08::UNKNOWN.len() {
+					ujobs.push((doc.clone(), k, at));
+				}
+			}
+			// and one after each of two Game Ends
+			if a.ends == 2 {
+				for k in [0usize, 3] {
+					ujobs.push((doc.clone(), k, doc.events.len()));
+				}
+			}
+		}
+		cx.note("unknown_event_inputs", json!(ujobs.len()));
+		par_each(ujobs.into_iter(), |(doc, k, at), local| {
+			let bytes = Arc::new(crate::checks::c08::with_unknown(&doc, &[(k, at)]));
+			for (skip, hash) in all_opts {
+				let p = P { skip, hash, class: "unknown-event", ..Default::default() };
+				eval_case("robust", o_robust, &bytes, &p, || format!("unknown event kind {} at boundary {}", k, at), local);
+			}
+			let p = P { class: "unknown-event", ..Default::default() };
+			eval_case("robust_inc", o_robust_inc, &bytes, &p, || format!("unknown event kind {} at boundary {} (incremental)", k, at), local);
+		});
+	}
 	if !cx.quick() {
 		// all pairs of structural deviations (deviation bound 2), lazily enumerated
 		for (abs, name) in bases(false) {
